@@ -178,6 +178,8 @@ class PrimitiveTree(list):
         range of values that defines the subtree which has the
         element with index *begin* as its root.
         """
+        if begin < 0:
+            begin += len(self)
         end = begin + 1
         total = self[begin].arity
         while total > 0:
